@@ -273,6 +273,10 @@ func c04Mutators() []*Program {
 		bf(when(isO(d), Ex(Asg("=", Mem(Mem(d, "n"), "m"), N("2")))), when(isA(d), Ex(Asg("=", Idx(d, N("3")), S("far"))))),
 		bf(Ex(Asg("=", V("x"), d)), when(isA(V("x")), call(V("x"), "push", N("2"))), when(isO(V("x")), Ex(Asg("=", Mem(V("x"), "z"), Arr_(V("x")))), Ex(Asg("=", Mem(V("x"), "z"), N("0"))))),
 		{Rules: []*Rule{{Body: Blk(when(&IsExpr{d, "number"}, Ex(&Postfix{Op: "++", X: d})), when(&IsExpr{d, "string"}, Ex(Asg("+=", d, S("!")))))}}},
+		// programs that never look at the document: -o still writes it
+		{Funcs: []*Func{f}, Rules: []*Rule{{Kind: "BEGIN", Body: Blk(Ex(Asg("=", V("n"), N("0"))))}}},
+		{Rules: []*Rule{{Kind: "END", Body: Blk(Ex(Asg("=", V("n"), N("0"))))}}},
+		{Rules: []*Rule{{Kind: "BEGIN", Body: Blk(Ex(Asg("=", V("n"), N("0"))))}, {Kind: "BEGIN", Body: Blk(Pr(S("b")))}}},
 	}
 }
 
@@ -434,7 +438,7 @@ func init() {
 	glen := func(c *fw.Ctx) int { return c.Pick(3, 4) }
 	fw.Register(&fw.Prop{
 		ID: "C04",
-		Rule: "all JSON trees of depth <= 2 / width <= 2 over 12 scalars, all depth <= 4 / width 1 trees, a structured sweep of doubles, each through json($) and through -o unmodified; narrow documents through 21 sub-document selectors with -o, and changed by 13 mutating programs (push / pop / popfirst, through a callee, an alias, per element, in ENDFILE, stores that create and pad; most without any assignment) with -o compared to the model's root; " +
+		Rule: "all JSON trees of depth <= 2 / width <= 2 over 12 scalars, all depth <= 4 / width 1 trees, a structured sweep of doubles, each through json($) and through -o unmodified; narrow documents through 21 sub-document selectors with -o, and changed by 13 mutating programs and left alone by 3 programs that have only BEGIN / END rules (push / pop / popfirst, through a callee, an alias, per element, in ENDFILE, stores that create and pad; most without any assignment) with -o compared to the model's root; " +
 			"acyclic documents nested 200 ... 4098 deep through json($) and -o; 7 programs that call json() on a container, change it through push / pop / popfirst / a callee without any assignment and call json() again; the real binary with -o - / -o FILE (over an older file, new) on 6 documents (two full of % directives, escapes and separators) whose element k receives one of 6 inexpressible values: non-zero exit, a diagnostic, nothing on stdout and no fragment in the file; " +
 			"all programs of <= L heap-building statements (cycles, sharing, regex / unset / non-finite members) followed by json() of every variable; oracle: the output parses with an independent RFC 8259 reader to a value equal to the document / the model's value, " +
 			"and a value is refused iff the model's heap has a cycle, regex or non-finite number in it; non-trivial = refusal classes; states = document shape classes, selector outcomes, graph outcome classes",
